@@ -17,7 +17,7 @@ from vf.common import CaseResult, Check, Scratch, rng_for
 from vf.interpose import Interposer
 
 HISTORIES = ["clean", "orphan_next", "orphan_equal_older_first", "orphan_equal_older_last", "orphan_equal_newer", "clean_expired",
-             "long", "two_handles"]
+             "long", "two_handles", "fresh_v0"]
 OPS = ["load", "create", "append", "gc", "append_lose_again", "create_listfail_once", "create_listfail_persistent", "load_listfail_persistent", "create_scandirfail_listfail_persistent"]
 
 
@@ -68,7 +68,8 @@ def pointer_grammar(cur: str, old: str, orph: Optional[str], n: int, tier: str) 
 def build(hist: str, root: str, ip: Interposer) -> Dict[str, Any]:
     rng = rng_for(0, "c10b")
     h = history.History(root, rng, ip=ip)
-    for op in [("append", 2), ("append", 1), ("delete_append", 1)]:
+    # fresh_v0: a table that was created and never committed to - its only metadata file is v0-*
+    for op in ([] if hist == "fresh_v0" else [("append", 2), ("append", 1), ("delete_append", 1)]):
         out = h.apply(op)
         assert out["ok"], out
         h.observe(op, True)
@@ -130,7 +131,7 @@ def build(hist: str, root: str, ip: Interposer) -> Dict[str, Any]:
         om = reader.read_metadata_file(h.blobs(), orph)
         orph_ids = [s["snapshot_id"] for s in om["snapshots"] if s["snapshot_id"] not in committed["ids"]]
     version = int(h.pointers[-1].split("-")[0].split(".")[0][1:])
-    return {"h": h, "stale_handle": stale_handle, "cur": h.pointers[-1], "old": h.pointers[-2], "orph": orph, "committed": committed,
+    return {"h": h, "stale_handle": stale_handle, "cur": h.pointers[-1], "old": h.pointers[-2] if len(h.pointers) > 1 else h.pointers[-1], "orph": orph, "committed": committed,
             "orph_ids": orph_ids, "version": version, "flipped": list(h.pointers)}
 
 
@@ -375,7 +376,7 @@ class C10(Check):
                     lib_ids = sorted(s.snapshot_id for s in md.snapshots)
                     lib_uuid = md.table_uuid
                     lib_schema = [(s.schema_id, s.fields) for s in md.schemas]
-                    lib_cur = md.current_snapshot_id
+                    lib_cur = md.current_snapshot_id if md.current_snapshot_id not in (None, -1) else None
                 except Exception as e:  # noqa
                     res.count("cases_judged")
                     res.violation(f"reopen-raises:{sigctx}", f"reopen raised {type(e).__name__}: {str(e)[:160]}", wit)
